@@ -404,7 +404,9 @@ def run_ops(case):
         what = f"GeoBox({shape}, {an}, {crs}).{op}"
         Rg = judge_op(G, op, dy, r, what)
         n += 1
-        if Rg is not None and Rg.shape[0] > 0 and Rg.shape[1] > 0 and op[0] in ("getitem", "zoom_out", "rotate", "flipx", "rmul", "mul", "pad"):
+        # views of the result (G is "warm" here: judge_views above has read every lazy property of it, so a result that
+        # inherits cached state from its parent is exposed); getitem only for a sub-menu to bound the cost
+        if Rg is not None and Rg.shape[0] > 0 and Rg.shape[1] > 0 and max(Rg.shape) <= 64 and (op[0] != "getitem" or n % 7 == 0):
             rr = R()
             judge_views(Rg, dy and not model(shape, A, op).get("approx") and op[0] not in ("rotate", "rmul"), rr, what + " [views of result]", cls)
             for f in rr.fails:
